@@ -12,12 +12,12 @@ LEVEL_TEXT = ("Lean theorems: per operation the partial aggregates form a monoid
               "homomorphism, hence for every table, query, partition into servers x intervals the merged result equals the central "
               "evaluation (count/sum/avg/min/max in any arrival order; last/len when partials arrive in line order, otherwise one of the "
               "candidates); tied to the code by a differential run of the real pipeline: server Aggregate (MakeFields, where, set, "
-              "aggregate, Serialize) -> client Aggregate -> GlobalGroupSet merge, on generated tables in default/generickv/csv format; the whole pipeline: C05_pipeline (distributed = central as group maps for every query and every list of partial results), C05_pipeline_any_arrival_order, C05_pipeline_value; tie G: C05_generated_aggregate_refines_model / C05_generated_merge_refines_model — AggregateSet.Aggregate and Merge as translated from the working tree are contribution + combine / mergeSet (gen.agg validates the translator); one case in six runs the real aggregator goroutines (Start, aggregateAndSerialize, interim Serialize); outfile cases (c15.write) for the final report")
+              "aggregate, Serialize) -> client Aggregate -> GlobalGroupSet merge, on generated tables in default/generickv/csv format; the whole pipeline: C05_pipeline (distributed = central as group maps for every query and every list of partial results), C05_pipeline_any_arrival_order, C05_pipeline_value; tie G: C05_generated_aggregate_refines_model / C05_generated_merge_refines_model — AggregateSet.Aggregate and Merge as translated from the working tree are contribution + combine / mergeSet (gen.agg validates the translator); one case in six runs the real aggregator goroutines (Start, aggregateAndSerialize, interim Serialize); outfile cases (c15.write) for the final report; the report itself (Model/Result.lean: rows, order by / rorder by as a stable sort, limit): C05_same_groups, C05_report_order_keys (same order keys as the central evaluation for every limit, every tie and every order in which the map range hands over the groups), C05_report (no ties: same rows), C05_report_sorted, C05_report_limit_keeps_top, C05_report_length, C05_report_stable; c05.agg compares the ordered rows of the real result()")
 TRUSTED = ["Lean 4 kernel", "axioms: propext, Quot.sound, Classical.choice (at most)", "fact extractor (delimiters)",
            "overlay harness + dtmodel driver + this diff",
            "modelled not verified: float64 arithmetic (the generator emits integers only, so every sum is exact), strconv.ParseFloat/"
            "FormatFloat, map iteration order (dump sorted), serialisation round trip of a message (exercised through the real Serialize/"
-           "makeFields, not proved), md5sum (not generated), rendering of result rows / order by / limit (not in this op)",
+           "makeFields, not proved), md5sum (not generated), limit and CSV rendering of the report (c15.write)",
            "the Go-to-Lean translator extract/translate.go and its prelude Model/GoRT.lean (int/uint64/float64 as Int, strings as bytes, maps as association lists; translated and real functions run on the same scripts on every run)"]
 ASSUMPTIONS = ["every MergeNoblock succeeds (single client goroutine; the concurrent case is C06)", "csv input is one file per server"]
 RULE = ("seeded tables: 0..40 lines with fields x,y,host,msg (missing / non-numeric with tunable probability), split into 1..4 servers x 1..3 "
@@ -120,6 +120,41 @@ def gen(rng, budget, tier):
             n += 1
             if n >= (10 if tier == "quick" else 200):
                 break
+
+
+def _gen_ordered(rng, n):
+    """the final report: many groups with mostly different order keys, every ordering clause"""
+    for _ in range(n):
+        hosts = rng.sample("abcdefgh", rng.choice([2, 3, 5, 8]))
+        lines = []
+        for h in hosts:
+            for _ in range(rng.choice([1, 1, 2, 4])):
+                lines.append(f"host={h}&x={rng.choice([rng.randrange(-50, 500), rng.randrange(0, 12)])}&msg={rng.choice(['3', '14', '-2', 'ok', '7'])}")
+        rng.shuffle(lines)
+        ns = rng.choice([1, 2, 3])
+        servers = [[[] for _ in range(rng.choice([1, 2]))] for _ in range(ns)]
+        for l in lines:
+            rng.choice(rng.choice(servers)).append(l)
+        enc = "/".join(";".join(",".join(hexs(l.encode()) for l in iv) if iv else "-" for iv in sv) for sv in servers)
+        key = rng.choice(["sum(x)", "avg(x)", "max(x)", "min(x)", "count(x)", "last(msg)", "len(msg)", "last(x)"])
+        others = rng.sample(["host", "count(host)", "sum(x)", "avg(x)", "last(msg)"], rng.choice([0, 1, 2]))
+        sels = [key] + [o for o in others if o != key]
+        rng.shuffle(sels)
+        q = f"select {','.join(sels)} from T group by host {rng.choice(['order', 'rorder'])} by {key}"
+        if rng.random() < 0.4:
+            q += f" limit {rng.choice([0, 1, 2, 3, 10])}"
+        fmt = rng.choice(["default", "generickv"])
+        q += "" if fmt == "default" else " logformat " + fmt
+        yield f"c05.agg {hexs(q.encode())} {fmt} {enc}"
+
+
+_gen_without_ordered = gen
+
+
+def gen(rng, budget, tier):
+    yield from _gen_without_ordered(rng, budget, tier)
+    # added last: earlier streams keep their cases (see DESIGN, RNG drift)
+    yield from _gen_ordered(rng, 150 if tier == "quick" else 5000)
 
 
 from props import gen_tie as _gt
